@@ -125,10 +125,22 @@ def _asserted(s: Summary):
     return {a.term[1] for a in s.of_kind("assert")}
 
 
+def _precondition_guards(s: Summary):
+    """Guards that only exist because an input outside the documented precondition is rejected up front:
+    assertions, and the negation of a top-level `if <violated>: raise`."""
+    out = set()
+    for r in s.of_kind("raise"):
+        if r.iters or len(r.guards) != 1:
+            continue
+        out.add(T.negate(T.guard_term(r.guards[0])))
+    return out
+
+
 def _own_guards(s: Summary, e: Event):
-    """Guards of an event that are not top-level assertions of the function."""
+    """Guards of an event that are not top-level assertions / precondition checks of the function."""
     asserted = _asserted(s)
-    return [g for g in e.guards if not (g[1] in asserted and g[2])]
+    pre = _precondition_guards(s)
+    return [g for g in e.guards if not (g[1] in asserted and g[2]) and T.guard_term(g) not in pre]
 
 
 def _once_per_source(ctx: Ctx, c: Collector) -> None:
@@ -260,6 +272,17 @@ def _capacity_site(s: Summary, e: Event, srcs: Term, dests: Term, mc: Term, many
         if not okc:
             pr.append("the per-destination count is not incremented by one on every connection (unconditionally)")
         rem = [x for x in s.of_kind("call") if x.term[1] == ("attr", dests, "remove") and x.term[2] == (dest,)]
+        # other ways to take exactly the chosen element out of the candidates: `del dests[i]` / `dests.pop(i)`
+        # with dest == dests[i], or the swap-with-last idiom (`last = dests.pop(); if i < bound: dests[i] = last`)
+        udest = unalias(dest, s, fi) if fi is not None else dest
+        if not rem and udest[0] == "idx" and udest[1] == dests:
+            i = udest[2]
+            rem = [x for x in s.events if (x.kind == "del" and x.term[1] == ("idx", dests, i)) or (x.kind == "call" and x.term[1] == ("attr", dests, "pop") and x.term[2] == (i,))]
+            if not rem:
+                pops = [x for x in s.of_kind("call") if x.term[1] == ("attr", dests, "pop") and not x.term[2]]
+                puts = [x for x in s.of_kind("store") if x.term[1] == ("idx", dests, i)]
+                if pops and puts and puts[0].idx > pops[0].idx and unalias(puts[0].term[2], s, fi) in (pops[0].term, T.var("$taken1")) or (pops and puts and puts[0].term[2][0] == "var"):
+                    rem = [pops[0]]
         if not rem:
             pr.append("a destination that has reached max_connects is never removed from the candidates")
         else:
